@@ -8,6 +8,18 @@ from pathlib import Path
 
 VERIF = Path(__file__).resolve().parent.parent
 NOTES = {
+    "C11-r3change2": "first reported without a failing input: the generated blocks now take the ends of the legal range of `ignored_defence` (0 and exactly 100) with their own probability",
+    "C12-r3change2": "missed at first: linearity of get_damage was only evaluated at ordinary magnitudes; it is now also evaluated at multiples 10^3, 10^6, 10^9 and 10^-3 of damage% and hit count, and the model correspondence of get_damage takes totals of every magnitude",
+    "C16-r3change1": "missed at first: the exclusion check read the replacement's level back from the environment under test; it now takes the CONFIGURED level from the configuration and the profile's raw name lists, and the providers' glue is inside the model (Props/C16_Provider.lean, §9.9) with a correspondence through both providers",
+    "C17-r3change1": "first reported without a failing input (the module-level cache is rejected by the effect checker): near-twins of one gear (reference stats differing in one field) are now asked in one order here and in the opposite order in a new interpreter (harness/c17_order.py)",
+    "C04-r4change2": "missed at first: the only other-environment pair changed every setting at once; the same body is now also run under environments that differ in ONE setting (armour, mob level, force advantage, level, ...)",
+    "C06-r4change1": "missed at first (needs a foreign rejection inside an accepted cast's play; about 1 cast in 450 on one job): every skill is now cast, used again at once and followed by the cast of another skill, on a fresh engine (triples), and the plan generator got the same pattern",
+    "C06-r4change2": "missed at first: no plan held a command the engine refuses with an exception; every second plan now holds refused commands (malformed ELAPSE, unknown command word, raising debug line; also as the very first command), after which the session goes on",
+    "C14-r4change1": "first reported without a failing input: metadata values now also end in the characters of the closing `---` line (`burst 0-`, `260-`, ...)",
+    "C14-r4change2": "missed at first: skill names that differ only in their inner / outer blanks (two spaces, a tab) are now in the name pool, so that parse_dsl_to_operations sees both in one process",
+    "C20-r4change1": "first reported without a failing input: the provider memoize() handed out for the previous request to a memoizer is asked again after the next request and must still answer what it answered then",
+    "C01-r4change1": "missed at first: no plan held a refused command; plans now hold them (every second plan) and a targeted exploration uses every skill, lets time pass, issues a malformed ELAPSE, casts the other skills and resumes directly after the refused line",
+    "C01-r4change2": "missed at first: the plans of this check were on the ms grid; every second plan now has off-grid times (sub-microsecond residues of cooldowns)",
     "C04-r3change1": "missed at first: every ELAPSE in the generated plans was a whole number of ms; the plan generator now also draws off-grid times (fractions of a ms, times a hair above / below a tick boundary)",
     "C06-r3change1": "missed at first: same as C04-r3change1 — off-grid ELAPSE times in the generated plans",
     "C06-r3change2": "missed at first: what RESOLVE should replay was read back from the engine's own buffer; the check now keeps its own record of the events of the last play",
